@@ -46,6 +46,9 @@ func NewNormalIWishartDistribution(kappa, nu Scalar, mu Vector, lambda Matrix) (
   if n != m || n != mu.Dim() {
     return nil, fmt.Errorf("invalid parameters")
   }
+  if !(kappa.GetFloat64() > 0.0) {
+    return nil, fmt.Errorf("invalid value for parameter kappa: %f", kappa.GetFloat64())
+  }
 
   iw, err := NewInverseWishartDistribution(nu, lambda)
   if err != nil {
